@@ -96,11 +96,13 @@ def produceLoop (cfg : StreamCfg) (right : Bytes) : Option Bytes â†’ List Ent â†
 def produceRange (merged : List Ent) (cfg : StreamCfg) (readTs now : Nat) (r : KeyRange) : List Ent :=
   produceLoop cfg r.right none (rangeItems merged cfg.prefix_ cfg.sinceTs readTs now r.left)
 
-/-- a whole run: range `i` is read by a producer whose transaction has read timestamp
-    `rts[i]` (the implementation creates one transaction per producer goroutine). -/
-def streamRun (merged : List Ent) (cfg : StreamCfg) (now : Nat) (ranges : List KeyRange) (rts : List Nat) :
+/-- a whole run. `Stream.beginRun` (called by `Orchestrate`) creates ONE read-only transaction
+    when the run starts and holds it until the run ends; every producer creates its
+    transaction at that transaction's read timestamp `ts` (managed mode: the timestamp given to
+    `NewStreamAt`), so every key range is read at the same `ts`. -/
+def streamRun (merged : List Ent) (cfg : StreamCfg) (now : Nat) (ranges : List KeyRange) (ts : Nat) :
     List (List Ent) :=
-  (ranges.zip rts).map (fun (r, ts) => produceRange merged cfg ts now r)
+  ranges.map (produceRange merged cfg ts now)
 
 /-- the default configuration: `KeyToList = ToList`. -/
 def toListCfg (numKeep now : Nat) (pfx : Bytes) (sinceTs : Nat) (choose : Ent â†’ Bool) : StreamCfg :=
